@@ -54,6 +54,11 @@ type swGen struct {
 }
 
 func (g *swGen) u(max uint64) uint64 {
+	if g.r.Intn(4) == 0 {
+		if v, ok := wellKnownFor(max, g.r.Intn); ok {
+			return v
+		}
+	}
 	switch g.r.Intn(6) {
 	case 0:
 		return 0
